@@ -30,23 +30,16 @@ func (s *Shard) deleteObjs(cnr cid.ID, addrs []oid.ID) error {
 		return nil
 	}
 
-	hasWriteCache := s.hasWriteCache()
-	if hasWriteCache {
-		for _, addr := range addrs {
-			err := s.writeCache.Delete(oid.NewAddress(cnr, addr))
-			if err != nil && !errors.Is(err, apistatus.ErrObjectNotFound) && !errors.Is(err, writecache.ErrReadOnly) {
-				s.log.Warn("can't delete object from write cache", zap.Error(err))
-			}
-		}
-	}
-
+	// Metadata goes first: an object the metabase still reports must keep its
+	// data, be it in the write-cache or in the BLOB storage, whenever this
+	// sequence is interrupted.
 	res, diff, err := s.metaBase.Delete(cnr, addrs)
 	if err != nil {
 		return err // stop on metabase error ?
 	}
 
-	if hasWriteCache {
-		for _, id := range res[len(addrs):] { // the rest are addrs, removed above
+	if s.hasWriteCache() {
+		for _, id := range res {
 			err := s.writeCache.Delete(oid.NewAddress(cnr, id))
 			if err != nil && !errors.Is(err, apistatus.ErrObjectNotFound) && !errors.Is(err, writecache.ErrReadOnly) {
 				s.log.Warn("can't delete object from write cache", zap.Error(err))
